@@ -26,6 +26,7 @@ DECIDED = [
     'vector beyond the last segment (and for an empty list)',
     'R3 Wind.vector = k v (cos d, 0, sin d) with one positive k: cross-range component odd and down-range component '
     'even in the direction, no vertical component, zero speed gives the zero vector',
+    'R3b Wind.vector is computed from the current velocity and direction on every path: a vector kept on the (mutable, publicly assignable) object is refuted',
 ]
 NOT_DECIDED = ['causality and mirror symmetry of the computed rows as numbers; opposite senses of head and tail wind in '
                'drop and time of flight (runtime values)']
